@@ -21,6 +21,11 @@ PROFILE = P.profile(p_cutoff=0.5, entry_w={"tree": 7, "hms": 1, "minimize": 3},
 
 def gen(seed, tier):
     pl = P.gen_plan(seed, PROFILE, PROP)
+    if "levels" in pl and seed % 2 == 0:
+        for l in pl["levels"]:
+            if l["engine"] == "custom":
+                l["custom_fine"] = True  # a user engine that breeds with Individual.clone() and evaluates the clones
+                pl["entry"] = "tree"
     if "minimize" in pl and pl["minimize"].get("maxfun") is not None:
         # budgets are not always Python ints: np.arange / rng.integers give numpy integers, 1e3 is a float
         pl["minimize"]["maxfun_type"] = ["int", "int", "np.int64", "float"][seed % 4]
